@@ -121,3 +121,9 @@ LEVEL["C18"] = ("Layering (raw file-system mutation only in the storage layer), 
                 "every path, RAM reader swapped under one lock) and MpWriter._commit (flush, sentinels, join, collect, "
                 "publish), plus the multi-process merge renumbering (C06-R1/R4).")
 NOTE["C18"] = ("Not decided: equality of dumps across configurations, queue timing, a sub-writer result lost on queue.Empty.")
+LEVEL["C19"] = ("Sibling agreement between the two terms_within implementations (edit-operation set extracted from the "
+                "automaton's transition templates vs the distance function the brute-force path resolves to; prefix; "
+                "acceptance threshold; every expanded term is measured), dominating-fact rules on the suggestion heap, "
+                "and a dependence rule on the suggestion score.")
+NOTE["C19"] = ("Not decided: equality with the distance definition on all word pairs. Four genuine defects are known findings "
+               "(no transposition in the automaton, queried word returned, constant distance in the rank).")
